@@ -194,6 +194,11 @@ class RequirementConstraintTransformer(BaseTransformer[TRCTransformerArgument, E
             evaluated_composition.format_constraints_expression = (
                 FormatConstraintExpressionBuilder(format_constraint).land(other_condition).get_expression()
             )
+        else:
+            # only the attached format constraint is dropped; those collected inside the other operand are kept
+            evaluated_composition.format_constraints_expression = getattr(
+                other_condition, "format_constraints_expression", None
+            )
 
         return evaluated_composition
 
